@@ -6,7 +6,7 @@ import random
 
 from happysimulator.core import event as _event_mod
 from happysimulator.core.control.breakpoints import (EventCountBreakpoint, EventTypeBreakpoint,
-                                                     TimeBreakpoint)
+                                                     MetricBreakpoint, TimeBreakpoint)
 from happysimulator.core.event import Event
 from happysimulator.core.simulation import Simulation
 from happysimulator.core.temporal import Instant
@@ -41,13 +41,19 @@ def mc_consts(max_ev, tset, daemon, cancel, max_cmd, alpha, dev=(), scheds="{FAL
 class Run:
     """One real Simulation of a program, optionally driven by controller commands."""
 
-    def __init__(self, prog, sched, step_ns=1000, form="list", attach=False, recorder=False, tracing=False):
+    def __init__(self, prog, sched, step_ns=1000, form="list", attach=False, recorder=False, tracing=False,
+                 source=False):
         self.prog, self.step = prog, step_ns
         self.tracing = tracing
         self.w = World(prog, form=form, step_ns=step_ns)
         w = self.w
         end = None if prog.end_t == INF else Instant(prog.end_t * step_ns)
         kw = {"trace_recorder": InMemoryTraceRecorder()} if recorder else {}
+        if source:      # a load source (and a daemon probe-like one) whose ticks tie with program events
+            from happysimulator.load.source import Source
+            tgt = w.ents[sorted(w.ents)[0]]
+            kw["sources"] = [Source.constant(rate=1e9 / step_ns, target=tgt, event_type="tick", name="src")]
+            kw["probes"] = [Source.constant(rate=0.5e9 / step_ns, target=tgt, event_type="probe", name="prb")]
         self.sim = Simulation(end_time=end, entities=list(w.ents.values()), **kw)
         made = {i: w.make(i) for i, e in enumerate(prog.events, start=1) if not e["par"]}   # label order
         for i in sched:
@@ -114,6 +120,9 @@ class Run:
             ctl.add_breakpoint(TimeBreakpoint(time=Instant(a * self.step), one_shot=bool(b)))
         elif op == "bp_label":
             ctl.add_breakpoint(EventTypeBreakpoint(event_type=f"E{a}", one_shot=bool(b)))
+        elif op == "bp_metric":
+            ctl.add_breakpoint(MetricBreakpoint(entity_name=sorted(self.w.ents)[0], attribute="level", operator="le",
+                                                threshold=a, one_shot=bool(b)))
         elif op == "clear":
             ctl.clear_breakpoints()
         elif op == "hook":
@@ -161,11 +170,11 @@ def _needs_run(cmds):
 MODES = [(a, r, t) for a in (False, True) for r in (False, True) for t in (False, True)]
 
 
-def execute(tid, prog, sched, cmds, *, step_ns, form="list", all_modes=False, strict=True):
-    ref_run = Run(prog, sched, step_ns, form)
+def execute(tid, prog, sched, cmds, *, step_ns, form="list", all_modes=False, strict=True, source=False):
+    ref_run = Run(prog, sched, step_ns, form, source=source)
     ref = ref_run.plain()
     refstats = ref_run.stats()
-    r = Run(prog, sched, step_ns, form)
+    r = Run(prog, sched, step_ns, form, source=source)
     cmds = [dict(c) for c in cmds]
     obs = []
     err = None
@@ -184,7 +193,7 @@ def execute(tid, prog, sched, cmds, *, step_ns, form="list", all_modes=False, st
     modes = []
     if all_modes:
         for (a, rec, tr) in MODES[1:]:
-            modes.append(Run(prog, sched, step_ns, form, attach=a, recorder=rec, tracing=tr).plain())
+            modes.append(Run(prog, sched, step_ns, form, attach=a, recorder=rec, tracing=tr, source=source).plain())
     tr = {"id": tid, "ev": [dict(t=e["t"], d=bool(e["d"]), par=e["par"], cby=e["cby"]) for e in prog.events],
           "endT": prog.end_t, "sched": list(sched), "cmds": cmds, "obs": obs if strict else [],
           "strict": strict, "delivered": [d[0] for d in r.w.delivered], "ref": ref, "modes": modes,
@@ -225,6 +234,8 @@ def random_script(rng, n_ev):
             cmds.append(dict(op="bp_time", a=rng.randint(0, 5), b=rng.randint(0, 1)))
         elif r < 0.9:
             cmds.append(dict(op="bp_label", a=rng.randint(1, max(1, n_ev)), b=rng.randint(0, 1)))
+        elif r < 0.92:
+            cmds.append(dict(op="bp_metric", a=rng.randint(0, 1), b=rng.randint(0, 1)))
         elif r < 0.94:
             cmds.append(dict(op="hook", a=rng.randint(1, max(2, n_ev)), b=0))
         elif r < 0.97:
@@ -313,7 +324,8 @@ def run(tier, seed, replay=None):
         tid = len(traces) + 1
         tr, err = execute(tid, prog, sched, cmds, **kw)
         traces.append(tr)
-        meta[tid] = dict(origin=origin, step_ns=kw.get("step_ns"), form=kw.get("form", "list"))
+        meta[tid] = dict(origin=origin, step_ns=kw.get("step_ns"), form=kw.get("form", "list"),
+                         source=kw.get("source", False))
         chk.impl_steps += len(tr["obs"]) + len(tr["delivered"])
         if err:
             chk.violation(f"exception:{err.split(':')[0]}", f"real control surface raised {err}",
@@ -359,8 +371,16 @@ def run(tier, seed, replay=None):
             cmds = cmds[:pos] + [dict(op="reset", a=0, b=0)] + [c for c in cmds[pos:] if c["op"] != "run"]
             rng.shuffle(sched)
         form = "list" if kk % 5 else ("gen_yield", "gen_return", "single")[kk % 3]
-        add(p, sched, cmds, "random", step_ns=(1, 1000, 10**9)[kk % 3], form=form, strict=(form == "list"),
-            all_modes=(kk % 4 == 0))
+        src = kk % 10 == 7      # a source-driven model with a finite end and a reset (judged real-vs-real only)
+        if src:
+            p.end_t = rng.randint(2, 5)
+            for e in p.events:
+                e["cby"] = 0
+            if not any(c["op"] == "reset" for c in cmds):
+                pos = rng.randint(0, len(cmds))
+                cmds = cmds[:pos] + [dict(op="reset", a=0, b=0)] + [c for c in cmds[pos:] if c["op"] != "run"]
+        add(p, sched, cmds, "random", step_ns=(1, 1000, 10**9)[kk % 3] if not src else (1000, 10**9)[kk % 2],
+            form=form, strict=(form == "list" and not src), all_modes=(kk % 4 == 0), source=src)
 
     verdicts, results = tlc.validate_traces(SPEC / "ControlTrace.tla", traces, label="C04_trace",
                                             spec="TSpec", constants={"Dev": "{}"})
@@ -424,7 +444,8 @@ def do_replay(chk, path):
     prog = Program(evs, tr["endT"])
     m = data.get("meta", {})
     new, err = execute(1, prog, tr["sched"], [c for c in tr["cmds"]], step_ns=m.get("step_ns") or 1000,
-                       form=m.get("form", "list"), all_modes=bool(tr["modes"]), strict=tr.get("strict", True))
+                       form=m.get("form", "list"), all_modes=bool(tr["modes"]), strict=tr.get("strict", True),
+                       source=m.get("source", False))
     verdicts, results = tlc.validate_traces(SPEC / "ControlTrace.tla", [new], label="C04_replay", spec="TSpec",
                                             constants={"Dev": "{}"})
     chk.impl_traces = 1
